@@ -10,6 +10,7 @@ import (
 	"path/filepath"
 	"sort"
 	"strings"
+	"sync"
 
 	"golang.org/x/tools/go/packages"
 	"golang.org/x/tools/go/ssa"
@@ -42,6 +43,10 @@ type Prog struct {
 	virt map[string]string
 
 	nFiles, nFuncs int
+
+	// shared: rule sets already evaluated on this program for Ctx.Share (see report.go), by function and config
+	sharedMu sync.Mutex
+	shared   map[string]*sharedRun
 }
 
 // App is one separately loaded app/*.go file (they do not compile together).
